@@ -41,6 +41,7 @@ pub fn strategy() -> impl Strategy<Value = Case> {
         2 => Just(Op::PackRefs),
         1 => any::<u16>().prop_map(Op::CaseVariant),
         3 => any::<u16>().prop_map(Op::ResetSoft),
+        1 => (any::<u16>(), any::<u16>()).prop_map(|(a, b)| Op::BlankEdgeName(a, b)),
     ];
     let step = prop_oneof![
         4 => repo.prop_map(Step::Repo),
